@@ -154,7 +154,7 @@ def judge(case):
 
 
 def shards(tier):
-    n = 4 if tier == "quick" else 40
+    n = 4 if tier == "quick" else 120
     return [{"id": f"{la}{lb}", "la": la, "lb": lb, "n": n, "cost": n * (1 + la + lb) ** 2}
             for la in range(6) for lb in range(6)]
 
